@@ -134,3 +134,18 @@
     requires self.wf(), self.has(node1), self.has(node2),
     ensures r == self.locations.sp_distance(self.sp_node(node1).sp_end_location(), self.sp_node(node2).sp_start_location()),
 //@end
+//@item model/src/network.rs Network::idle_time_between
+//@retname r
+//@sig
+    requires self.wf(), self.has(node1), self.has(node2),
+    ensures r == self.leg_idle(node1, node2),
+//@first
+        broadcast use lemma_dt_cmp_rank;
+        proof {
+            assert(self.nodes@.contains_key(node1) && self.nodes@.contains_key(node2));
+            let l1 = self.sp_node(node1).sp_end_location(); let l2 = self.sp_node(node2).sp_start_location();
+            if l1 is Station && l2 is Station {
+                assert(self.locations.stations@.contains_key(l1->Station_0) && self.locations.stations@.contains_key(l2->Station_0));
+            }
+        }
+//@end
